@@ -9,7 +9,7 @@ from ..real.env import reset_globals
 
 MODULE = "NadaVerif.Props.C19"
 TRANSLATORS = None
-THEOREMS = [f"NadaVerif.C19.{n}" for n in (
+THEOREMS = [f"NadaVerif.C19.{n}" for n in ("internAll_own", "internAll_resolves", "internAll_nodup", "sourcesOf_own") + (
     "drop_offset", "lineInfo_exact", "lineInfo_missing", "intern_get", "intern_stable", "resolve_user", "frames_user",
     "call_sites_covered")]
 
@@ -242,6 +242,51 @@ def duplicate_lines(res):
         shutil.rmtree(tmp, ignore_errors=True)
 
 
+def intern_correspondence(res, tier):
+    """Tie of `Runtime.internAll` (Lean) to `SourceRef.to_index`: during every compilation of a stream of generated programs
+    (several compilations per process, several per program) the calls of `to_index` are recorded — the reference asked for and
+    the index returned; the Lean function, started from the empty table, must return the same indices and the table the MIR
+    carries as `source_refs`.  A table kept from one compilation to the next shows up as a disagreement here."""
+    from nada_dsl.source_ref import SourceRef
+    from ..gen import programs
+    from ..real import interp
+    n = 60 if tier == "quick" else 1200
+    calls, comps = [], []
+    orig_index, orig_compile = SourceRef.to_index, interp.nada_dsl_to_nada_mir
+
+    def to_index(self):
+        i = orig_index(self)
+        calls.append(([self.lineno, self.offset, self.file, self.length], i))
+        return i
+
+    def compile_(outputs):
+        del calls[:]
+        mir = orig_compile(outputs)
+        comps.append((list(calls), [[r["lineno"], r["offset"], r["file"], r["length"]] for r in mir["source_refs"]]))
+        return mir
+    SourceRef.to_index, interp.nada_dsl_to_nada_mir = to_index, compile_
+    try:
+        for idx in range(n):
+            programs.generate("C19i", idx, max_cmds=18, scenario=programs.Gen.SCENARIOS[idx % len(programs.Gen.SCENARIOS)] if idx % 3 == 0 else None)
+    finally:
+        SourceRef.to_index, interp.nada_dsl_to_nada_mir = orig_index, orig_compile
+        reset_globals()
+    reqs = [{"k": "intern", "table": [], "refs": [c[0] for c in cs]} for cs, _ in comps]
+    answers = core.driver(reqs) if reqs else []
+    bad = 0
+    for (cs, table), ans in zip(comps, answers):
+        if "error" in ans:
+            raise core.Infra(f"intern request rejected: {ans}")
+        if ans["indices"] != [c[1] for c in cs] or ans["table"] != table:
+            bad += 1
+            if bad <= 2:
+                k = next((j for j, (a, b) in enumerate(zip(ans["indices"], [c[1] for c in cs])) if a != b), None)
+                res.broken.append({"decl": "Runtime.internAll (Lean) vs SourceRef.to_index / source_refs of the emitted MIR",
+                                   "msg": (f"call {k}: reference {cs[k][0]} got index {cs[k][1]}, the model numbers it {ans['indices'][k]}" if k is not None
+                                           else f"the MIR's source_refs has {len(table)} entries, the model's table {len(ans['table'])}")})
+    return {"compilations": len(comps), "to_index_calls": sum(len(cs) for cs, _ in comps), "disagreements": bad}
+
+
 def run(res, tier):
     nedited = edited_helper(res)
     ndup = duplicate_lines(res)
@@ -286,6 +331,7 @@ def run(res, tier):
     #     sharing modules (K10 rendering); every element of every MIR is checked against the program text
     mir_stats = whole_mirs(res, tier)
     sb_stats = same_basename_sequences(res, tier)
+    intern_stats = intern_correspondence(res, tier)
     evals += mir_stats["elements_checked"]
     reset_globals()
     # 3. line arithmetic: model (Lean lineInfo) vs real try_get_line_info on random texts, and the
@@ -328,7 +374,7 @@ def run(res, tier):
                 f"{len(T4.static_call_sites())} syntactic back_frame() call sites must be reached), run from three file names in one "
                 "process; random texts (incl. form feeds, Unicode separators, tabs, non-ASCII) x line numbers (first, last, beyond) "
                 "through try_get_line_info vs the Lean lineInfo; non-trivial = distinct entries / (text, existing line) pairs",
-        "whole_mirs": mir_stats,
+        "whole_mirs": mir_stats, "intern_correspondence": intern_stats,
         "same_file_name_sequences": sb_stats,
         "catalogue_entries": len(rows), "call_sites_unreached": len(unreached), "lineinfo_disagreements": len(diffs),
         "samples": samples,
